@@ -18,3 +18,22 @@ func (u *User) Name(a int) int {
 //
 //go:noinline
 func Call(u *User, a int) int { return u.Name(a) }
+
+// Lookup and Find are functions whose types print the same in both packages
+// (func(model.User) string, func(*model.User) *model.User) although they name different types.
+//
+//go:noinline
+func Lookup(u User) string {
+	if u.N > 1<<41 {
+		return "big"
+	}
+	return "orig"
+}
+
+//go:noinline
+func Find(u *User) *User {
+	if u != nil && u.N > 1<<41 {
+		return nil
+	}
+	return u
+}
